@@ -12,7 +12,7 @@ import (
 // finders, the markup parsers and the two-pass logic. docspec = template id; the
 // members inside a template rotate with the PRNG of the docGen.
 
-const nRichDocs = 27
+const nRichDocs = 28
 
 func pagerHTML(g *docGen, style string, n, k int) string {
 	var sb strings.Builder
@@ -270,6 +270,17 @@ func richDoc(id int, g *docGen) string {
 		pg := g.pick(`<a href="/story/view?pg=1">1</a> 2`, `1 <a href="/story/view?pg=2">2</a>`, `<a href="/story/view/1">1</a> <b>2</b>`,
 			`<span>1</span> <a href="/story/view/2">2</a>`)
 		body.WriteString("<div>" + story(3) + "</div><div>" + pg + "</div>")
+	case 27: // elements one rarely meets: obsolete lists, disclosure widgets, ruby, math, presentational left-overs
+		w := g.words
+		body.WriteString("<div>" + story(2) +
+			`<menu><li>` + w(6) + `</li><li>` + w(5) + `</li></menu><dir><li>` + w(4) + `</li></dir>` +
+			`<details><summary>` + w(3) + `</summary><p>` + w(20) + `</p></details><dialog open><p>` + w(8) + `</p></dialog>` +
+			`<center>` + w(12) + `</center><p>` + w(10) + ` <ruby>` + w(1) + `<rp>(</rp><rt>` + w(1) + `</rt><rp>)</rp></ruby> <big>` + w(2) + `</big> <nobr>` + w(2) + `</nobr> <bdi>` + w(1) + `</bdi> <wbr>` + w(8) + `</p>` +
+			`<math><mi>x</mi><mo>=</mo><mn>2</mn></math><fieldset><legend>` + w(2) + `</legend>` + w(6) + `</fieldset>` +
+			`<dl><dt>` + w(2) + `</dt><dd>` + w(12) + `</dd></dl><template><p>` + w(5) + `</p></template><marquee>` + w(4) + `</marquee>` +
+			`<p>` + w(6) + ` <meter value="0.6">` + w(1) + `</meter> <progress value="3" max="9"></progress> <output>` + w(1) + `</output> <data value="7">` + w(1) + `</data> <time datetime="2014-07-15">` + w(2) + `</time></p>` +
+			`<xmp>` + w(4) + `</xmp><listing>` + w(3) + `</listing><hgroup><h2>` + w(3) + `</h2><h3>` + w(3) + `</h3></hgroup><table></table><table><caption>` + w(2) + `</caption></table>` +
+			story(2) + "</div>")
 	default: // a random abstract document through the doc-family concretiser
 		forest := randomForest(r, 14)
 		return g.page(forest, docPlaces[r.Intn(len(docPlaces))])
